@@ -242,3 +242,108 @@ m('culprits_pok_names_nobody', 'harmful', 'C08', E,
 m('culprits_sigshare_names_nobody', 'harmful', 'C08', E,
   '            Error::InvalidSignatureShare { culprits } => culprits.clone(),', '            Error::InvalidSignatureShare { culprits } => vec![],',
   'invalid signature share blames nobody')
+
+# ---------------------------------------------------------------------------------------------------------------------
+# refresh.rs :: compute_refreshing_shares
+m('crs_guards_exchanged', 'benign', 'C10', RF,
+  '    let signers = identifiers.len() as u16;\n    validate_num_of_signers(min_signers, signers)?;\n\n    if identifiers\n        .iter()\n        .any(|i| !pub_key_package.verifying_shares().contains_key(i))\n    {\n        return Err(Error::UnknownIdentifier);\n    }\n',
+  '    if identifiers\n        .iter()\n        .any(|i| !pub_key_package.verifying_shares().contains_key(i))\n    {\n        return Err(Error::UnknownIdentifier);\n    }\n\n    let signers = identifiers.len() as u16;\n    validate_num_of_signers(min_signers, signers)?;\n',
+  'unknown-participant check made before the (n, t) check')
+m('crs_other_error_value', 'benign', 'C10', RF,
+  '        .ok_or(Error::InvalidMinSigners)?;\n\n    let signers = identifiers.len() as u16;', '        .ok_or(Error::IncorrectNumberOfShares)?;\n\n    let signers = identifiers.len() as u16;',
+  'missing threshold record refused with another error value')
+m('crs_threshold_defaulted', 'harmful', 'C10', RF,
+  '    let min_signers = pub_key_package\n        .min_signers\n        .ok_or(Error::InvalidMinSigners)?;', '    let min_signers = pub_key_package\n        .min_signers\n        .unwrap_or(2);',
+  'missing threshold record silently replaced by 2')
+m('crs_wrong_sign', 'harmful', 'C10', RF,
+  '                    refreshing_verifying_share.to_element() + verifying_share.to_element();', '                    refreshing_verifying_share.to_element() - verifying_share.to_element();',
+  'verifying shares updated with the wrong sign')
+m('crs_identity_not_stripped', 'harmful', 'C10', RF,
+  '        share.commitment.0.remove(0);\n        refreshing_shares_minus_identity.push(share);', '        refreshing_shares_minus_identity.push(share);',
+  'identity commitment left in the refreshing shares')
+
+# refresh.rs :: refresh_share
+m('rs_guards_exchanged', 'benign', 'C10', RF,
+  '    let refreshed_share_package = KeyPackage::<C>::try_from(refreshing_share)?;\n\n    if refreshed_share_package.min_signers() != current_key_package.min_signers() {',
+  '    if refreshing_share.commitment.min_signers() != *current_key_package.min_signers() {\n        return Err(Error::InvalidMinSigners);\n    }\n    let refreshed_share_package = KeyPackage::<C>::try_from(refreshing_share)?;\n\n    if refreshed_share_package.min_signers() != current_key_package.min_signers() {',
+  'threshold compared before the share is verified')
+m('rs_threshold_check_dropped', 'harmful', 'C10', RF,
+  '    if refreshed_share_package.min_signers() != current_key_package.min_signers() {\n        return Err(Error::InvalidMinSigners);\n    }\n', '',
+  'refresh with another threshold accepted')
+m('rs_wrong_sign', 'harmful', 'C10', RF,
+  '        refreshed_share_package.signing_share.to_scalar()\n            + current_key_package.signing_share.to_scalar(),', '        refreshed_share_package.signing_share.to_scalar()\n            - current_key_package.signing_share.to_scalar(),',
+  'old share subtracted')
+m('rs_stale_verifying_share', 'harmful', 'C10', RF,
+  '    new_key_package.verifying_share = signing_share.into();\n', '', 'verifying share not re-derived (finding F1 reverted)')
+
+# refresh.rs :: refresh_dkg_part1
+m('rp1_extra_early_refusal', 'benign', 'C10', RF,
+  '    validate_num_of_signers::<C>(min_signers, max_signers)?;\n', '    if max_signers < min_signers {\n        return Err(Error::InvalidMaxSigners);\n    }\n    validate_num_of_signers::<C>(min_signers, max_signers)?;\n',
+  'n < t refused first with another error value')
+m('rp1_identity_not_stripped', 'harmful', 'C10', RF,
+  '    coeff_comms.remove(0);\n', '', 'identity commitment published')
+m('rp1_nonzero_constant_term', 'harmful', 'C10', RF,
+  '        scalar: <<C::Group as Group>::Field>::zero(),\n    };\n\n    // Round 1, Step 1', '        scalar: <<C::Group as Group>::Field>::one(),\n    };\n\n    // Round 1, Step 1',
+  'refreshing polynomial with constant term 1')
+
+# refresh.rs :: refresh_dkg_part2
+m('rp2_other_error_value', 'benign', 'C10', RF,
+  '    if round1_packages.len() != (secret_package.max_signers - 1) as usize {\n        return Err(Error::IncorrectNumberOfPackages);', '    if round1_packages.len() != (secret_package.max_signers - 1) as usize {\n        return Err(Error::IncorrectPackage);',
+  'wrong number of contributions refused with another error value')
+m('rp2_longer_commitment_accepted', 'harmful', 'C10', RF,
+  '        if refreshing_share_commitments.clone().len() != secret_package.min_signers as usize {', '        if refreshing_share_commitments.clone().len() < secret_package.min_signers as usize {',
+  'contribution for a larger threshold accepted')
+m('rp2_missing_contribution_accepted', 'harmful', 'C10', RF,
+  '    if round1_packages.len() != (secret_package.max_signers - 1) as usize {\n        return Err(Error::IncorrectNumberOfPackages);', '    if round1_packages.len() > (secret_package.max_signers - 1) as usize {\n        return Err(Error::IncorrectNumberOfPackages);',
+  'missing contribution accepted')
+m('rp2_identity_left_in_own_commitment', 'harmful', 'C10', RF,
+  '    secret_package.commitment.0.remove(0);\n', '', 'own commitment handed on with the identity in front')
+
+# refresh.rs :: refresh_dkg_shares
+m('rds_threshold_check_moved', 'benign', 'C10', RF,
+  '    if round2_secret_package.min_signers() != old_key_package.min_signers() {\n        return Err(Error::InvalidMinSigners);\n    }\n\n    // Add identity commitment back into the round2_secret_package\n    let mut commitment = round2_secret_package.commitment.0.clone();\n    commitment.insert(0, CoefficientCommitment::new(C::Group::identity()));\n    let round2_secret_package = round2::SecretPackage::new(\n        round2_secret_package.identifier,\n        VerifiableSecretSharingCommitment::<C>::new(commitment),\n        round2_secret_package.secret_share.0,\n        round2_secret_package.min_signers,\n        round2_secret_package.max_signers,\n    );\n\n    // Add identity commitment back into round1_packages\n    let mut new_round_1_packages = BTreeMap::new();\n    for (sender_identifier, round1_package) in round1_packages {\n        // The identity commitment needs to be added to the VSS commitment for every round 1 package\n        let identity_commitment: Vec<CoefficientCommitment<C>> =\n            vec![CoefficientCommitment::new(C::Group::identity())];\n\n        let refreshing_share_commitments: Vec<CoefficientCommitment<C>> = identity_commitment\n            .into_iter()\n            .chain(round1_package.commitment.0.clone())\n            .collect();\n\n        let new_commitments =\n            VerifiableSecretSharingCommitment::<C>::new(refreshing_share_commitments);\n\n        let new_round_1_package = Package {\n            header: round1_package.header,\n            commitment: new_commitments,\n            proof_of_knowledge: round1_package.proof_of_knowledge,\n        };\n\n        new_round_1_packages.insert(*sender_identifier, new_round_1_package);\n    }\n\n    if new_round_1_packages.len() != (round2_secret_package.max_signers - 1) as usize {\n        return Err(Error::IncorrectNumberOfPackages);\n    }\n    if new_round_1_packages.len() != round2_packages.len() {\n        return Err(Error::IncorrectNumberOfPackages);\n    }\n    if new_round_1_packages\n        .keys()\n        .any(|id| !round2_packages.contains_key(id))\n    {\n        return Err(Error::IncorrectPackage);\n    }\n\n    let mut signing_share = <<C::Group as Group>::Field>::zero();\n',
+  '\n    // Add identity commitment back into the round2_secret_package\n    let mut commitment = round2_secret_package.commitment.0.clone();\n    commitment.insert(0, CoefficientCommitment::new(C::Group::identity()));\n    let round2_secret_package = round2::SecretPackage::new(\n        round2_secret_package.identifier,\n        VerifiableSecretSharingCommitment::<C>::new(commitment),\n        round2_secret_package.secret_share.0,\n        round2_secret_package.min_signers,\n        round2_secret_package.max_signers,\n    );\n\n    // Add identity commitment back into round1_packages\n    let mut new_round_1_packages = BTreeMap::new();\n    for (sender_identifier, round1_package) in round1_packages {\n        // The identity commitment needs to be added to the VSS commitment for every round 1 package\n        let identity_commitment: Vec<CoefficientCommitment<C>> =\n            vec![CoefficientCommitment::new(C::Group::identity())];\n\n        let refreshing_share_commitments: Vec<CoefficientCommitment<C>> = identity_commitment\n            .into_iter()\n            .chain(round1_package.commitment.0.clone())\n            .collect();\n\n        let new_commitments =\n            VerifiableSecretSharingCommitment::<C>::new(refreshing_share_commitments);\n\n        let new_round_1_package = Package {\n            header: round1_package.header,\n            commitment: new_commitments,\n            proof_of_knowledge: round1_package.proof_of_knowledge,\n        };\n\n        new_round_1_packages.insert(*sender_identifier, new_round_1_package);\n    }\n\n    if new_round_1_packages.len() != (round2_secret_package.max_signers - 1) as usize {\n        return Err(Error::IncorrectNumberOfPackages);\n    }\n    if new_round_1_packages.len() != round2_packages.len() {\n        return Err(Error::IncorrectNumberOfPackages);\n    }\n    if new_round_1_packages\n        .keys()\n        .any(|id| !round2_packages.contains_key(id))\n    {\n        return Err(Error::IncorrectPackage);\n    }\n\n    if round2_secret_package.min_signers() != old_key_package.min_signers() {\n        return Err(Error::InvalidMinSigners);\n    }\n    let mut signing_share = <<C::Group as Group>::Field>::zero();\n',
+  'threshold check made after the package-count checks')
+m('rds_other_error_value', 'benign', 'C10', RF,
+  '                .ok_or(Error::UnknownIdentifier)?', '                .ok_or(Error::IncorrectPackage)?', 'unknown participant refused with another error value')
+m('rds_lower_threshold_accepted', 'harmful', 'C10', RF,
+  '    if round2_secret_package.min_signers() != old_key_package.min_signers() {', '    if round2_secret_package.min_signers() < old_key_package.min_signers() {',
+  'refresh run with a larger threshold accepted')
+m('rds_shares_not_verified', 'harmful', 'C10', RF,
+  '        let _ = secret_share.verify()?;\n', '', 'refreshing shares not verified (non-zero constant term accepted)')
+m('rds_old_share_not_added', 'harmful', 'C10', RF,
+  '    signing_share = signing_share + old_signing_share;\n', '', 'old signing share not added')
+
+# ---------------------------------------------------------------------------------------------------------------------
+# repairable.rs :: repair_share_part1
+m('rep1_guards_exchanged', 'benign', 'C11', RP,
+  '    if helpers.len() < *key_package_i.min_signers() as usize {\n        return Err(Error::IncorrectNumberOfIdentifiers);\n    }\n    if !helpers.contains(&key_package_i.identifier) {\n        return Err(Error::UnknownIdentifier);\n    }\n',
+  '    if !helpers.contains(&key_package_i.identifier) {\n        return Err(Error::UnknownIdentifier);\n    }\n    if helpers.len() < *key_package_i.min_signers() as usize {\n        return Err(Error::IncorrectNumberOfIdentifiers);\n    }\n',
+  'membership check made before the helper-count check')
+m('rep1_other_error_value', 'benign', 'C11', RP,
+  '    if helpers.len() < *key_package_i.min_signers() as usize {\n        return Err(Error::IncorrectNumberOfIdentifiers);', '    if helpers.len() < *key_package_i.min_signers() as usize {\n        return Err(Error::IncorrectNumberOfShares);',
+  'too few helpers refused with another error value')
+m('rep1_exactly_t_refused', 'harmful', 'C11', RP,
+  '    if helpers.len() < *key_package_i.min_signers() as usize {', '    if helpers.len() <= *key_package_i.min_signers() as usize {', 'exactly t helpers refused')
+m('rep1_t_minus_1_accepted', 'harmful', 'C11', RP,
+  '    if helpers.len() < *key_package_i.min_signers() as usize {', '    if helpers.len() + 1 < *key_package_i.min_signers() as usize {', 't-1 helpers accepted')
+m('rep1_duplicates_accepted', 'harmful', 'C11', RP,
+  '    if xset.len() != helpers.len() {\n        return Err(Error::DuplicatedIdentifier);\n    }\n', '', 'duplicate helpers accepted')
+
+# repairable.rs :: compute_last_random_value
+m('clrv_extra_early_refusal', 'benign', 'C11', RP,
+  '    // Calculate Lagrange Coefficient for helper_i\n    let zeta_i =', '    if !helpers.contains(&key_package_i.identifier) {\n        return Err(Error::IncorrectNumberOfIdentifiers);\n    }\n    // Calculate Lagrange Coefficient for helper_i\n    let zeta_i =',
+  'calling helper missing from the set: refused first, with another error value')
+m('clrv_wrong_sign', 'harmful', 'C11', RP,
+  '        Delta::new(lhs - sum_i_deltas),', '        Delta::new(lhs + sum_i_deltas),', 'correcting value with the wrong sign')
+m('clrv_lagrange_at_zero', 'harmful', 'C11', RP,
+  '        compute_lagrange_coefficient(helpers, Some(participant), key_package_i.identifier)?;', '        compute_lagrange_coefficient(helpers, None, key_package_i.identifier)?;',
+  'Lagrange coefficient evaluated at 0 instead of the repaired identifier')
+
+# repairable.rs :: repair_share_part3
+m('rep3_other_error_value', 'benign', 'C11', RP,
+  '            .ok_or(Error::InvalidMinSigners)?,', '            .ok_or(Error::IncorrectNumberOfShares)?,', 'missing threshold record refused with another error value')
+m('rep3_threshold_defaulted', 'harmful', 'C03', RP,
+  '            .ok_or(Error::InvalidMinSigners)?,', '            .unwrap_or(2),', 'missing threshold record silently replaced by 2')
+m('rep3_wrong_sign', 'harmful', 'C11', RP,
+  '        share = share + s.to_scalar();', '        share = share - s.to_scalar();', 'sigmas subtracted')
